@@ -88,7 +88,8 @@ class Box:
 
     def __init__(self, R):
         self.R = R
-        self.dir = tempfile.mkdtemp(prefix="verif-c38-")
+        shm = "/dev/shm" if os.path.isdir("/dev/shm") and os.access("/dev/shm", os.W_OK) else None   # tmpfs: cheap fsync
+        self.dir = tempfile.mkdtemp(prefix="verif-c38-", dir=shm)
         path = os.path.join(self.dir, "redun.db")
         with open(path, "wb") as f:
             f.write(R._template())
@@ -289,7 +290,7 @@ def run(ctx):
     rng = ctx.rng
     progs = [(name, e, G.to_sx(e)) for name, e in corpus().items()]
     base = rng.getrandbits(48)
-    for i in range(ctx.n(26, 80)):
+    for i in range(ctx.n(20, 80)):
         prng = random.Random(base + i)
         gen = G.Gen(prng, p_err=prng.choice([0.0, 0.1, 0.25]), max_fan=3)
         for _ in range(30):
